@@ -122,6 +122,7 @@ type res02 struct {
 	reopens  int
 	eff      []Op // the operations actually performed (illegal reopens skipped)
 	cut      int  // with a violation: the number of leading operations that produced it
+	sig      sigState
 }
 
 func (r *res02) finalRoot() []byte {
@@ -192,12 +193,14 @@ func runC02(c Case) (res *res02) {
 		if res.viol == nil {
 			res.viol = &violation{kind: kind, what: fmt.Sprintf(f, a...)}
 			res.cut = at + 1
+			res.sig.snapshot(tree)
 		}
 	}
 	defer func() {
 		if p := recover(); p != nil {
 			res.viol = &violation{kind: "panic", what: fmt.Sprintf("implementation panicked: %v", p)}
 			res.cut = at + 1
+			res.sig.snapshot(tree)
 			debugStack()
 			res.panicked = true
 		}
@@ -232,7 +235,11 @@ func runC02(c Case) (res *res02) {
 		if len(v) == 0 {
 			feat["has_empty_value"] = true
 		}
+		_, had := res.ref[string(k)]
 		res.ref[string(k)] = v
+		if !had {
+			res.sig.depth(res.ref)
+		}
 		res.coqOps = append(res.coqOps, "CIns "+coqBytes(k)+" "+coqBytes(v))
 	}
 	refRem := func(k []byte) {
@@ -257,6 +264,7 @@ func runC02(c Case) (res *res02) {
 				return
 			}
 			refIns(o.Key, o.Val)
+			res.sig.scan(tree)
 			justCommitted = false
 		case "rem":
 			if err = tree.Remove(ctx, nn(o.Key)); err != nil {
@@ -264,6 +272,7 @@ func runC02(c Case) (res *res02) {
 				return
 			}
 			refRem(o.Key)
+			res.sig.scan(tree)
 			justCommitted = false
 		case "applywl":
 			var wl writelog.WriteLog
@@ -287,8 +296,10 @@ func runC02(c Case) (res *res02) {
 					res.stats.add("op_kinds", "applywl_ins")
 				}
 			}
+			res.sig.scan(tree)
 			justCommitted = false
 		case "commit":
+			res.sig.scan(tree)
 			wl, h, err := tree.Commit(ctx, ns, version)
 			if err != nil {
 				fail("error", "unexpected error: Commit(version %d): %v", version, err)
@@ -367,6 +378,7 @@ func runC02(c Case) (res *res02) {
 	sort.Strings(keys)
 	for _, k := range keys {
 		v, err := tree.Get(ctx, []byte(k))
+		res.sig.scan(tree)
 		if err != nil {
 			fail("error", "unexpected error: Get(%x): %v", k, err)
 			return
@@ -795,7 +807,9 @@ func mainC02(seed uint64, n int, out string, rp *replayInput) {
 		s.process(b, nil, nil)
 		return
 	}
-	r := prng.New(seed)
+	// prng.New(seed) and prng.New(seed+1) are the same splitmix64 stream shifted
+	// by one step; forking once decorrelates consecutive seeds.
+	r := prng.New(seed).Fork()
 	for s.w.Total < n && s.sum.Evaluations < 2*n+10 {
 		cr := r.Fork()
 		base := genC02(cr)
